@@ -76,6 +76,16 @@ class ndarray(_np.ndarray, metaclass=_Meta):
     def any(self, *a, **k): return any(self, *a, **k)
     def clip(self, lo=None, hi=None): return clip(self, lo, hi)
 
+    # full reductions return a *scalar* in NumPy (np.float64, immutable).  An ndarray subclass would get a 0-d array
+    # back, which `x -= ...` then mutates in place through every alias (`l_max = l_old = self.w.sum()` in QUEST).
+    def sum(self, *a, **k):
+        r = _np.ndarray.sum(self, *a, **k)
+        return r[()] if isinstance(r, _np.ndarray) and r.ndim == 0 else r
+
+    def trace(self, *a, **k):
+        r = _np.ndarray.trace(self, *a, **k)
+        return r[()] if isinstance(r, _np.ndarray) and r.ndim == 0 else r
+
 
 def _wrap(a):
     """object arrays become `ndarray` (the lying subclass); numeric arrays stay as they are."""
